@@ -389,6 +389,7 @@ class Workspace:
         self.case = case
         self.texts: dict[str, str] = {}
         self.rendered: dict[str, object] = {}
+        self.main_is_link = False
 
         def fix(prog):
             p = copy.deepcopy(prog)
@@ -401,6 +402,24 @@ class Workspace:
             r = render_fn(fix(fd["prog"]))
             self.texts[fd["path"]] = r.text
             self.rendered[fd["path"]] = r
+            if fd["path"] == case["main_path"]:
+                import zlib
+
+                if zlib.crc32(r.text.encode("utf-8")) % 3 == 0:
+                    # environment: the main file is reached through a symbolic link (a function of its text); the real
+                    # file lives in another directory at another depth. Imports and source-map paths are relative to
+                    # the path the caller passes, i.e. to the link.
+                    real = os.path.join(self.base, "store", "checked", "out", "main_real.exps")
+                    os.makedirs(os.path.dirname(real), exist_ok=True)
+                    with open(real, "w", encoding="utf-8") as fh:
+                        fh.write(r.text)
+                    if os.path.lexists(path):
+                        os.remove(path)
+                    os.symlink(real, path)
+                    self.main_is_link = True
+                    continue
+            if os.path.islink(path):
+                os.remove(path)
             with open(path, "w", encoding="utf-8") as fh:
                 fh.write(r.text)
         for lp in case["lookup"]:
